@@ -85,7 +85,10 @@ func HC17_blur() {
 	}
 	var bp model.BiasProps = props
 	bias := NewFatigue(rt.Generators, rt.Generators, []FatigueFunction{&ExponentialFromZeroFatigue{}, &ConstFatigueFunction{}})
-	original := vh.Params(vh.Alternatives("orig.", vh.AltIds[:A], crit), chose, crit, methodParams) // differs from current: must not be used
+	// the original parameters differ from the current ones in values, criteria and method parameters (as after an
+	// earlier omission): nothing of them may be used or handed on
+	origCrit := append(append(model.Criteria{}, crit...), model.Criterion{Id: "dropped-earlier", Type: model.Gain})
+	original := vh.Params(vh.Alternatives("orig.", vh.AltIds[:A], origCrit), chose, origCrit, &struct{ X int }{8})
 	res := bias.Apply(original, current, &bp, nil)
 	rep := res.Props.(FatigueResult)
 	rt.Assert("C17.report-carries-ratio", rep.EffectiveFatigueRatio == f)
